@@ -519,11 +519,18 @@ class Caller:
 
 # ---------------------------------------------------------------------------- what was supplied (for read-back comparison)
 
+class AttrVal:
+    """an attribute value in the description of what was supplied (K7 concerns element leaves only)"""
+
+    def __init__(self, v):
+        self.v = v
+
+
 def supplied_struct(src, st):
     d = {}
     t = src["types"][st["type"]]
     for a, v in st["attrs"]:
-        d[a["zn"][st["type"]]] = v["py"]
+        d[a["zn"][st["type"]]] = AttrVal(v["py"])
     if st["text"] is not None:
         d[t.get("valname", "_value_1")] = st["text"]["py"]
     if st["content"] is not None:
@@ -584,6 +591,8 @@ def is_empty(v):
     from zeep.xsd.valueobjects import CompoundValue
     if isinstance(v, CompoundValue):
         v = v.__values__
+    if isinstance(v, AttrVal):
+        return False
     if v is None or v == [] or v == {}:
         return True
     if isinstance(v, dict):
@@ -602,6 +611,11 @@ def readback_diff(sup, got, path="root"):
         return dict(msg="%s: %s" % (path, msg), code=code)
     if isinstance(got, CompoundValue):
         got = got.__values__
+    if isinstance(sup, AttrVal):
+        d = readback_diff(sup.v, got, path)
+        if d:
+            d = dict(msg="attribute " + d["msg"], code="attribute")
+        return d
     if isinstance(sup, dict):
         if not isinstance(got, dict):
             if got is None and is_empty(sup):
@@ -609,6 +623,8 @@ def readback_diff(sup, got, path="root"):
             return out("supplied a structure, read back %r" % (canon(got),))
         for k, v in sup.items():
             if k not in got:
+                if isinstance(v, AttrVal):
+                    return out("attribute %s: missing after the round trip" % k, "attribute")
                 if isinstance(v, dict) and is_empty(v):
                     return out("%s: supplied a structure without any content, missing after the round trip" % k, "empty-structure")
                 if v is None or v == []:
